@@ -62,6 +62,22 @@ func c14Digits(s string) []c14Digit {
 }
 
 type c14Named string
+
+// String-kind and byte-slice-kind result types that also know how to present themselves. What a handler returns
+// is its value; how the type would print itself is nobody's business here.
+type c14Secret string
+
+func (c14Secret) String() string   { return "Secret(REDACTED)" }
+func (c14Secret) GoString() string { return "c14Secret{…}" }
+
+type c14Fmt string
+
+func (c14Fmt) Format(f fmt.State, _ rune) { _, _ = io.WriteString(f, "FORMATTED") }
+
+type c14HexBytes []byte
+
+func (b c14HexBytes) String() string { return fmt.Sprintf("%x", []byte(b)) }
+
 type c14NamedBytes []byte // a named byte-slice type (like json.RawMessage): a byte slice by kind
 // c14ValErr is a concrete, non-pointer error type: its zero value is a non-nil error with a message.
 type c14ValErr struct{ Code int }
@@ -94,7 +110,7 @@ type c14Err struct{ msg string }
 
 func (e *c14Err) Error() string { return e.msg }
 
-var retShapes = []string{"string", "bytes", "error", "int,string", "int,bytes", "int,error", "string,error", "bytes,error", "*string", "named", "iface", "*bytes", "namedbytes", "int,namedbytes", "valerr", "int,valerr", "string,valerr", "iface-err", "int,iface-err", "int,iface", "int,string,int", "bool", "struct", "digits", "int,digits", "*digits", "digits,error"}
+var retShapes = []string{"string", "bytes", "error", "int,string", "int,bytes", "int,error", "string,error", "bytes,error", "*string", "named", "iface", "*bytes", "namedbytes", "int,namedbytes", "valerr", "int,valerr", "string,valerr", "iface-err", "int,iface-err", "int,iface", "int,string,int", "bool", "struct", "digits", "int,digits", "*digits", "digits,error", "stringer", "int,stringer", "formatter", "stringer,error", "bytes-stringer"}
 
 var (
 	tString = reflect.TypeOf("")
@@ -204,6 +220,16 @@ func (c *retCase) outs() ([]reflect.Type, []reflect.Value) {
 		return []reflect.Type{tString}, []reflect.Value{c.strish(tString)}
 	case "named":
 		return []reflect.Type{tNamed}, []reflect.Value{c.strish(tNamed)}
+	case "stringer":
+		return []reflect.Type{reflect.TypeOf(c14Secret(""))}, []reflect.Value{reflect.ValueOf(c14Secret(c.Str))}
+	case "int,stringer":
+		return []reflect.Type{tInt, reflect.TypeOf(c14Secret(""))}, []reflect.Value{reflect.ValueOf(c.Int), reflect.ValueOf(c14Secret(c.Str))}
+	case "stringer,error":
+		return []reflect.Type{reflect.TypeOf(c14Secret("")), tError}, []reflect.Value{reflect.ValueOf(c14Secret(c.Str)), c.errValue()}
+	case "formatter":
+		return []reflect.Type{reflect.TypeOf(c14Fmt(""))}, []reflect.Value{reflect.ValueOf(c14Fmt(c.Str))}
+	case "bytes-stringer":
+		return []reflect.Type{reflect.TypeOf(c14HexBytes(nil))}, []reflect.Value{reflect.ValueOf(c14HexBytes(c.Str))}
 	case "bytes":
 		return []reflect.Type{tBytes}, []reflect.Value{c.strish(tBytes)}
 	case "namedbytes":
@@ -273,8 +299,10 @@ func retTable(c *retCase) (int, string, bool) {
 		return 200, body, true
 	}
 	switch c.Shape {
-	case "string", "named", "bytes", "*string", "*bytes", "iface", "namedbytes", "digits", "*digits":
+	case "string", "named", "bytes", "*string", "*bytes", "iface", "namedbytes", "digits", "*digits", "stringer", "formatter", "bytes-stringer":
 		return one()
+	case "int,stringer":
+		return c.Int, body, true
 	case "int,digits":
 		return c.Int, body, true
 	case "digits,error":
@@ -306,7 +334,7 @@ func retTable(c *retCase) (int, string, bool) {
 			return c.Int, "", true
 		}
 		return c.Int, c.errText(), true
-	case "string,error", "bytes,error":
+	case "string,error", "bytes,error", "stringer,error":
 		if c.Err != "" {
 			return 500, c.errText(), true
 		}
@@ -335,7 +363,7 @@ func (c *retCase) unjudged() bool {
 		return false
 	}
 	switch c.Shape {
-	case "bytes", "*string", "*bytes", "iface", "bytes,error", "namedbytes", "digits", "*digits", "digits,error":
+	case "bytes", "*string", "*bytes", "iface", "bytes,error", "namedbytes", "digits", "*digits", "digits,error", "bytes-stringer":
 		return (c.Shape != "bytes,error" && c.Shape != "digits,error") || c.Err == ""
 	}
 	return false
